@@ -91,7 +91,7 @@ func c17Scenario(clients []gridClient) *explore.Scenario {
 			}
 			sc := serverChoice{Vers: tls.VersionTLS13, Cert: certKind}
 			scfg := sc.config()
-			hk := &connHooks{}
+			hk := &connHooks{AcceptCookie: true}
 			hk.Groups13 = func(cg, pref []tls.CurveID) []tls.CurveID { return []tls.CurveID{tls.CurveID(grp)} }
 			nHRR := 0
 			hk.Out = func(n int, t uint8, data []byte) []byte {
@@ -282,15 +282,12 @@ func c17Scenario(clients []gridClient) *explore.Scenario {
 			} else {
 				r.Violate("C17|keyshare-missing", "%s: CH2 has no key_share", what)
 			}
-			if cookie == nil {
-				// (the utls/Go server never sends cookies and treats a cookie in CH2 as an illegal
-				// change, so completion can only be required for cookie-less HRRs; with a cookie the
-				// shape of CH2 is what is judged)
-				if !(hs.OK() && hs.EchoOK) {
-					r.Violate("C17|handshake-fails-after-hrr|"+errClass(hs.CErr), "%s: client %v server %v echo %v", what, hs.CErr, hs.SErr, hs.EchoErr)
-				}
-			} else if !(hs.OK() && hs.EchoOK) {
-				r.Count("large_cookie_handshake_failed", 1)
+			// (the server's verif hook AcceptCookie makes it tolerate the echoed cookie, which entered
+			// its transcript with the modified HelloRetryRequest: completion is required in every case)
+			if !(hs.OK() && hs.EchoOK) {
+				r.Violate(fmt.Sprintf("C17|handshake-fails-after-hrr|cookie=%d|%s", len(cookie), errClass(hs.CErr)), "%s: client %v server %v echo %v", what, hs.CErr, hs.SErr, hs.EchoErr)
+			} else if cookie != nil {
+				r.Count("completed_with_cookie", 1)
 			}
 			r.Count("valid_hrr_cases", 1)
 			r.Obs = fmt.Sprintf("valid|cookie=%d|viol=%d", len(cookie), len(r.Viol))
@@ -314,9 +311,10 @@ func init() {
 	register(&Prop{ID: "C17", Level: "exploration", Variant: "A", Scenarios: c17Scenarios,
 		Run: func(c *explore.Check, thorough bool) {
 			c.Rule = "every TLS 1.3 client without PSK (all IDs, 2 (64) seeds per randomized kind, custom specs) x every classical group it lists without a share (forced through the verif group hook) x cookie {none, 1, 32, 255, 1024 bytes} (added to the HRR before it enters the server transcript) x HRR kind {valid, group not listed, group already shared, neither group nor cookie, second HRR} x environment {plain, hello built twice before Handshake, *Config shared with a connection of another parrot family that builds its hello while this one awaits the server}: valid => CH2 equals CH1 extension by extension except key_share (exactly one fresh share of the requested group), the echoed cookie and padding, and the handshake completes with echo; invalid => client error and no further ClientHello. distinct = (client, kind, group, cookie)"
-			c.Assumptions = []string{"the utls server with verif hooks H1/H2 is the HelloRetryRequest source; its transcript sees the modified HRR", "the cookie insertion index is drawn from a fresh PRNG and is observed, not enumerated", "handshake completion after an HRR is required for cookie-less HRRs only: the only server available rejects a cookie in the second ClientHello, so with a cookie the check judges the shape of CH2"}
+			c.Assumptions = []string{"the utls server with verif hooks H1/H2 is the HelloRetryRequest source; its transcript sees the modified HRR", "the cookie insertion index is drawn from a fresh PRNG and is observed, not enumerated", "the server tolerates the echoed cookie through the verif hook AcceptCookie13 (crypto/tls servers never issue cookies and would reject one)"}
 			runAll(c, c17Scenarios(thorough), 0)
 			c.Gate(c.Total.Counters["valid_hrr_cases"] > 200, "non-vacuity: %d valid HRR cases", c.Total.Counters["valid_hrr_cases"])
+			c.Gate(c.Total.Counters["completed_with_cookie"] > 100, "non-vacuity: %d handshakes completed after an HRR with a cookie", c.Total.Counters["completed_with_cookie"])
 			c.Gate(c.Total.Counters["invalid_hrr_cases"] > 100, "non-vacuity: %d invalid HRR cases", c.Total.Counters["invalid_hrr_cases"])
 		}})
 }
